@@ -12,6 +12,7 @@ answer) is printed as a Coq term of `SeqCases.case_t`; Coq evaluates the indepen
   (3) the requests issued up to a run are calls the reading reaches when only the answers handed back up to
       that run are known (no call is issued before the reading reaches it)."""
 import json
+import os
 
 import seq16gen
 import vlib
@@ -64,7 +65,7 @@ def gen_cases(rng, tier, escalate=False):
     cases = []
     for _ in range(n_scripts):
         peers = rng.choice([3, 3, 4, 5])
-        script, stats = seq16gen.gen_script(rng, peers=peers, depth=rng.choice([3, 4, 4, 5]))
+        script, stats = seq16gen.gen_script(rng, peers=peers, depth=rng.choice([3, 4, 4, 5]), tail_par=rng.random() < 0.5)
         init = rng.randrange(peers)
         cases.append(_case(script, peers, stats, init=init, ops=fifo(), drain=True, how="fifo"))
         for _ in range(2):
@@ -73,7 +74,7 @@ def gen_cases(rng, tier, escalate=False):
             cases.append(_case(script, peers, stats, init=init, ops=ops, drain=True, how="random+drain"))
     for _ in range(n_small):
         peers = rng.choice([3, 3, 4])
-        script, stats = seq16gen.gen_script(rng, peers=peers, depth=rng.choice([2, 2, 3]))
+        script, stats = seq16gen.gen_script(rng, peers=peers, depth=rng.choice([2, 2, 3]), tail_par=rng.random() < 0.5)
         cases.append(_case(script, peers, stats, init=rng.randrange(peers), explore={"max_paths": paths, "max_len": 60}, how="explore"))
     return cases
 
@@ -120,9 +121,11 @@ def evaluate(cases, result, tier):
     checks = {"model": "check_case", "oracle": "c16_oracle",
               "frag": "check_fragment", "defined": "check_defined", "services": "check_services",
               "o1": "oracle_subset", "o2": "oracle_drained", "o3": "oracle_order",
-              "done": "fun c => negb (reading_status c =? 0)", "stuck": "fun c => negb (reading_status c =? 1)"}
-    fails, errs = vlib.coq_eval_cases(PID, HEADER, "case_t", checks, terms, shard_size=60, timeout=1700)
+              "done": "fun c => negb (reading_status c =? 0)", "stuck": "fun c => negb (reading_status c =? 1)",
+              "progress": "fun c => negb (progress_checked c)"}
+    fails, errs = vlib.coq_eval_cases(os.environ.get("C16_TAG", PID), HEADER, "case_t", checks, terms, shard_size=60, timeout=1700)
     result["errors"].extend(errs)
+    dist["drained history of a script where progress is promised (oracle part 2 applies)"] = len(fails["progress"])
     dist["sequential reading completes"] = len(fails["done"])
     dist["sequential reading is stuck (never / undefined variable)"] = len(fails["stuck"])
     which = {i: [] for i in fails["model"]}
